@@ -820,11 +820,11 @@ class Table(Vector):
 		# If you pass a list of lists, we treat it as list-of-columns to match Table structure.
 		# SPECIAL CASE: If we have a single target column and value is a flat list,
 		# treat it as values for that column, not as multiple columns.
-		if isinstance(value, (list, tuple)):
-			# Single column slice assignment: t[:, 'x'] = [1, 2, 3]
+		if isinstance(value, (list, tuple, Vector)):
+			# Single column slice assignment: t[:, 'x'] = [1, 2, 3] (or a Vector of values)
 			if len(target_indices) == 1:
 				# Check if it's a flat list (not nested)
-				if not value or not isinstance(value[0], (list, tuple, Vector)):
+				if len(value) == 0 or not isinstance(value[0], (list, tuple, Vector)):
 					# Flat list -> assign to the single column
 					self._underlying[target_indices[0]][row_spec] = value
 					return
